@@ -7,7 +7,8 @@
      PulseReach.v    reach_inv
      PulseMin.v      recalc_min
      PulseExact.v    pulse_never_early_once (any Pulse() oracle), pulse_exact (operation-free Pulse() oracle)
+     PulseAsk.v      recalc_asks (GetPulseTime() is called exactly on the invalid attached nodes)
      PulseRefuted.v  reentrant_recalc_refuted (finding F16)
      PulseFuel.v     fuel adequacy (apply_cop_fuel, get_aux_fuel, pulse_aux_fuel, step_total) *)
 From Muscle Require Export Pulse.PulseModel Pulse.PulseInv Pulse.PulseForest Pulse.PulseResched Pulse.PulseOps
-     Pulse.PulseSweep Pulse.PulseReach Pulse.PulseMin Pulse.PulseExact Pulse.PulseRefuted Pulse.PulseFuel.
+     Pulse.PulseSweep Pulse.PulseReach Pulse.PulseMin Pulse.PulseExact Pulse.PulseAsk Pulse.PulseRefuted Pulse.PulseFuel.
